@@ -13,4 +13,4 @@ def run(ctx):
         'no unwinding or value-range bound: CBMC decides every value of the instantiated types',
         'other element types (strings, user types) are outside the decided instantiations; the code is generic over PartialOrd and uses only <=, >=',
     ]
-    core.run_kani_set(ctx, ['c07_'], bound='all i8 / all non-NaN f64, no unwind bound', harness_timeout=300, expect_min=15)
+    core.run_kani_set(ctx, ['c07_'], bound='all i8 / all non-NaN f64, no unwind bound', harness_timeout=300)
